@@ -28,7 +28,8 @@ type SkExec = cw1_subkeys::msg::ExecuteMsg;
 type SkQuery = cw1_subkeys::msg::QueryMsg;
 
 const U128MAX: u128 = u128::MAX;
-const DENOMS: [&str; 3] = ["ua", "ub", "uc"];
+// `UA`: differs from `ua` only in letter case (bank denoms are case sensitive)
+const DENOMS: [&str; 4] = ["ua", "ub", "uc", "UA"];
 const VALIDATORS: [&str; 2] = ["val1", "val2"];
 
 /// `M.m.p[-pre]` re-rendered from its parts, `?` for anything else (mirrors `parseSemVer` of the Lean driver).
